@@ -540,4 +540,14 @@ theorem gen_massesGuard_eq_model [OfNat K 0] [DecidableEq K] (ms : List (Option 
     ModelSource.massesGuard ms = ms.any Option.isSome := by
   rfl
 
+/-- `load('system_model')`: the defaults `key='atomic-system'`, `index=0`; the lookup is `finds`; an entry with the
+    box key is wrapped under the root `System(model=)` looks for — the model's `loadSystem`. -/
+theorem gen_load_eq_model :
+    ModelSource.loadParams.lookup "key" = some (some ("'" ++ ModelSource.systemFind ++ "'"))
+    ∧ ModelSource.loadParams.lookup "index" = some (some "0")
+    ∧ ModelSource.loadLookup = "finds" ∧ ModelSource.loadBoxTest = ModelSource.systemBoxKey
+    ∧ ModelSource.loadBoxTest = "box" ∧ ModelSource.loadWrapKey = ModelSource.systemFind
+    ∧ ModelSource.loadWrapKey = "atomic-system" := by
+  decide
+
 end Atomman.C10
